@@ -32,7 +32,10 @@ LEVEL_NOTE = (
 RULE = (
     "cases = recipes from vk.gen.problem (bounded int/real types, object fluents, hierarchical types, quantified / conditional / "
     "forall constructs) extended by vk.gen.iofrag with adversarial identifiers (ANML keywords, case variants, leading digits, "
-    "symbols, names equal to mangled forms), nested non-commutative arithmetic, durative actions with all duration-interval "
+    "symbols, names equal to mangled forms), nested non-commutative arithmetic, Real constants with finite non-dyadic decimal "
+    "expansions (1/10, 1/5, 3/10, 7/20: every other case, in initial values, effect values, conditions, durations, type bounds; "
+    "a planted counter that is raised / lowered by such a step under a guard on a multiple of it; values compared exactly as "
+    "Fractions, also along two lock-step walks of up to 6 state-changing steps), durative actions with all duration-interval "
     "forms, conditions on points / open / closed / half-open intervals incl. intermediate time points, effects at start / end / "
     "intermediate points, timed effects, timed goals; plus the ANML files of the repository (parsed, written, re-parsed). One "
     "evaluation = one judged comparison. distinct_nontrivial = distinct problems with >= 1 durative action or >= 1 renamed item "
@@ -49,8 +52,8 @@ SHARD_TIMEOUT = {"quick": 900, "thorough": 5400}
 # The ANML reader costs 0.5 - 3 CPU-seconds per text of 20-30 lines (nested pyparsing infix_notation grammars): the quick tier can
 # afford ~32 texts; vk.gen.iofrag.gen_anml_case stratifies them by case index so that every class is still covered.
 BOUNDS = {
-    "quick": dict(n=32, shards=4, depth=2, max_states=8, max_inst=10, read_timeout=30, files=("basic.anml", "durative_goals.anml", "tils.anml")),
-    "thorough": dict(n=1600, shards=16, depth=3, max_states=40, max_inst=24, read_timeout=60, files=None),
+    "quick": dict(n=32, shards=4, depth=2, max_states=8, max_inst=10, walks=2, walk_len=6, read_timeout=30, files=("basic.anml", "durative_goals.anml", "tils.anml")),
+    "thorough": dict(n=1600, shards=16, depth=3, max_states=40, max_inst=24, walks=3, walk_len=8, read_timeout=60, files=None),
 }
 ANML_DIR = os.path.join(_env.REPO, "unified_planning", "test", "anml")
 
@@ -183,7 +186,7 @@ def check_problem(pb, rec, info, wbase, b, res, explicit_env=False):
     renamed = _renamed(pb, names)
     durative = any(isinstance(a, DurativeAction) for a in pb.actions)
     try:
-        st, corr = bisim.bisimulate(pb, pb2, bisim.FnNameMap(name_of), depth=b["depth"], max_states=b["max_states"], max_inst=b["max_inst"], case_sensitive=True)
+        st, corr = bisim.bisimulate(pb, pb2, bisim.FnNameMap(name_of), depth=b["depth"], max_states=b["max_states"], max_inst=b["max_inst"], case_sensitive=True, walks=b.get("walks", 0), walk_len=b.get("walk_len", 0))
     except bisim.Mismatch as m:
         res.mon()
         res.case()
@@ -238,6 +241,11 @@ def check_problem(pb, rec, info, wbase, b, res, explicit_env=False):
                 res.count("class:bounded-types")
             if any(f["type"] != "bool" and f["type"][0] == "user" for f in rec["fluents"]):
                 res.count("class:object-fluents")
+            if iofrag.has_non_dyadic_decimals(rec):
+                res.count("class:non-dyadic-decimal-constants")
+                if st.counters.get("state-pairs-with-non-dyadic-decimal-values"):
+                    # such a constant made it into a judged state (initial value, or added / assigned by an effect)
+                    res.count("class:non-dyadic-decimal-values-in-states")
         res.sample({"problem": rec if "recipe" in wbase else wbase.get("file"), "renamed_items": renamed, "durative": durative, "judged": st.judged, "state_pairs": st.pairs, "verdict": "equivalent within bounds"})
 
 
@@ -296,6 +304,9 @@ REQUIRED = [
     ("timed goals", ["class:timed-goals"], 1),
     ("nested non-commutative arithmetic", ["class:nested-minus", "class:nested-div"], 2),
     ("bounded numeric types", ["class:bounded-types"], 3),
+    ("Real constants with finite non-dyadic decimal expansions (1/10, 3/10, 7/20 ..)", ["class:non-dyadic-decimal-constants"], 6),
+    ("problems where such constants reach judged states (initial values / effect values)", ["class:non-dyadic-decimal-values-in-states"], 4),
+    ("lock-step walk steps beyond the breadth-first depth (accumulated effects)", ["walk-steps-beyond-depth"], 10),
     ("conditional effects applied", ["feature:conditional"], 12),
     ("forall effects applied", ["feature:forall"], 3),
     ("durations compared", ["durations-compared"], 30),
